@@ -23,11 +23,8 @@ ROUNDED = ('JACCARD', 'COSINE', 'DICE')
 REQUIRED, ALLOWED, FORBIDDEN = 'required', 'allowed', 'forbidden'
 
 
-def raw_scores(measure, a, b, o):
-    """All legitimate double-precision evaluations of the similarity of two token sets of sizes
-    a and b sharing o tokens (a, b >= 1)."""
-    if a == b == o and measure != 'OVERLAP':
-        return [1.0]      # identical sets: exactly 1 (also what py_stringmatching short-circuits to)
+def formula_scores(measure, a, b, o):
+    """Double-precision evaluations of the defining formula (no shortcut for identical sets)."""
     if measure == 'JACCARD':
         return [float(o) / float(a + b - o)]
     if measure == 'DICE':
@@ -42,6 +39,19 @@ def raw_scores(measure, a, b, o):
     raise ValueError(measure)
 
 
+def raw_scores(measure, a, b, o, identical_shortcut=True):
+    """All legitimate double-precision evaluations of the similarity of two token sets of sizes
+    a and b sharing o tokens (a, b >= 1).  Identical sets score exactly 1 (which is also what
+    py_stringmatching short-circuits to when handed equal token lists); with
+    identical_shortcut=False the formula values are legitimate as well (a caller evaluating the
+    formula on differently ordered token lists may see 1 -+ 1ulp for cosine)."""
+    if a == b == o and measure != 'OVERLAP':
+        if identical_shortcut:
+            return [1.0]
+        return sorted(set([1.0] + formula_scores(measure, a, b, o)))
+    return formula_scores(measure, a, b, o)
+
+
 def score_candidates(measure, a, b, o):
     """Values a correct implementation may report as _sim_score."""
     raws = raw_scores(measure, a, b, o)
@@ -50,14 +60,14 @@ def score_candidates(measure, a, b, o):
     return sorted(set(raws))
 
 
-def classify(measure, op, threshold, a, b, o):
+def classify(measure, op, threshold, a, b, o, identical_shortcut=True):
     """Three-way class of a pair with non-empty... (a,b >= 0, not both 0)."""
     fn = OPS[op]
     if a == 0 or b == 0:
         # exactly one empty side (both-empty is handled by the caller): similarity 0
         vals = [0.0] if measure != 'OVERLAP' else [0]
     else:
-        vals = list(raw_scores(measure, a, b, o))
+        vals = list(raw_scores(measure, a, b, o, identical_shortcut))
         if measure in ROUNDED:
             vals = vals + [round(v, 4) for v in vals]
     hits = [bool(fn(v, threshold)) for v in vals]
